@@ -271,7 +271,8 @@ def likeDeltas (T : List Int) : List Int :=
 
 /-- Index of the first kept reference sample.  As the code is (`perWindow = false`):
     `searchsorted(T - δ[0], start)` — every reference sample is shifted by the FIRST window length.
-    `perWindow = true` is the proposed repair `searchsorted(T - δ, start)` (finding F9). -/
+    `perWindow = true` is `searchsorted(T - δ, start)`: the repair of finding F9, which IS the code since /repo
+    d1dbc24 (`perWindow = false` is kept as the record of the code before that repair). -/
 def likeStart (perWindow : Bool) (c : Cont) (T : List Int) : Nat :=
   let delta := likeDeltas T
   if perWindow then searchsortedLeft (List.zipWith (· - ·) T delta) c.start
@@ -287,7 +288,7 @@ def likeWindows (pw : Bool) (c : Cont) (T : List Int) : List (Int × List Rat) :
   (likeKept pw c T).map fun (t, δ) => (t, ((Src.cont c).getitem (t - δ) t).samples.map (·.2))
 
 /-- `Slice.downsampled_like(other)`: the downsampled channel and the cropped reference.
-    `pw = false` is the code as it is. -/
+    `pw = true` is the code as it is (since the repair of F9); `pw = false` the code before it. -/
 def like (pw : Bool) (f : List Rat → Rat) (s ref : Src) : Except Err (List Sample × List Sample) :=
   match ref with
   | .cont _ => .error .type
@@ -561,7 +562,7 @@ def handleWin (isTo : Bool) (rest : List String) : Option String :=
   `c04.to   <src> <reduce> <where> <method> <step>`
   `c04.by   <src> <reduce> <k>`
   `c04.like <src> <reduce> <refsrc>`          values of empty windows are printed as `E`
-  `c04.likepw <src> <reduce> <refsrc>`        the same with the proposed repair of the start index (F9)
+  `c04.likepw <src> <reduce> <refsrc>`        the code as it is now (per-window start index, repair of F9); this is the op the harness runs
   `c04.arith <op> <srcA> <srcB>`
   `c04.overwins <src> <where> [a,b;…]`        the arrays `downsampled_over` hands to `reduce`, with their timestamps
   `c04.bywins <src> <k>`                     the rows `downsampled_by` hands to `reduce(axis=1)`
